@@ -138,9 +138,94 @@ let run_scan fn fmt fs ras root mask tgt addr limit off cells : string =
       Eng_walk.string_of_status st ^ (if st = Step.OK || st = Step.NOTPRESENT then " " ^ hex_of_n a else "")
   | _ -> failwith "bad scan function"
 
+(* ---- os ---- *)
+open LinuxX86Model
+
+let is_cell_tok (t : string) : bool =
+  String.length t > 2 && (t.[0] = '0' || t.[0] = '1' || t.[0] = '2' || t.[0] = '-') &&
+  (match String.index_opt t ':' with Some i -> i <= 2 | None -> false)
+
+let hl_fuel = nat_of_int 200000
+
+type oscase = { img : image; queries : string list; root_phys : coq_N option; nfields_hint : int }
+
+let parse_os (toks : string list) : oscase =
+  let names = Hashtbl.create 16 in
+  let os = ref OS_UNKNOWN and ver = ref None and pb = ref None and root = ref None and vb = ref None
+  and xx = ref None and caps = ref 0 and cells = ref [] and qs = ref [] and rp = ref None in
+  let optn v = if v = "-" then None else Some (n_of_hex v) in
+  Stdlib.List.iter (fun t ->
+    let after k = String.sub t k (String.length t - k) in
+    if String.length t >= 3 && String.sub t 0 3 = "os=" then
+      os := (match after 3 with "l" -> OS_LINUX | "x" -> OS_XEN | _ -> OS_UNKNOWN)
+    else if String.length t >= 4 && String.sub t 0 4 = "ver=" then ver := optn (after 4)
+    else if String.length t >= 3 && String.sub t 0 3 = "pb=" then pb := optn (after 3)
+    else if String.length t >= 3 && String.sub t 0 3 = "vb=" then vb := optn (after 3)
+    else if String.length t >= 3 && String.sub t 0 3 = "rp=" then rp := optn (after 3)
+    else if String.length t >= 3 && (String.sub t 0 3 = "bo=" || String.sub t 0 3 = "nf=" || String.sub t 0 3 = "dm=") then ()
+    else if String.length t >= 3 && String.sub t 0 3 = "xx=" then
+      xx := (match after 3 with "-" -> None | "0" -> Some false | _ -> Some true)
+    else if String.length t >= 5 && String.sub t 0 5 = "root=" then
+      root := (match after 5 with
+               | "-" -> None
+               | v -> (match split_on ':' v with
+                       | [a; x] -> Some (as_of_string a, n_of_hex x)
+                       | _ -> failwith "bad root"))
+    else if String.length t >= 5 && String.sub t 0 5 = "caps=" then caps := int_of_string ("0x" ^ after 5)
+    else if String.length t > 2 && t.[1] = ':' && (t.[0] = 'S' || t.[0] = 'R' || t.[0] = 'N') then begin
+      let body = after 2 in
+      match String.index_opt body '=', String.index_opt body '!' with
+      | Some i, _ -> Hashtbl.replace names (t.[0], String.sub body 0 i)
+                       (CbOk (n_of_hex (String.sub body (i + 1) (String.length body - i - 1))))
+      | None, Some i -> Hashtbl.replace names (t.[0], String.sub body 0 i)
+                       (CbErr (Eng_walk.status_of_int (int_of_z (z_of_hex (String.sub body (i + 1) (String.length body - i - 1))))))
+      | _ -> ()
+    end
+    else if String.length t > 2 && t.[1] = ':' && (t.[0] = 'Q' || t.[0] = 'P') then qs := t :: !qs
+    else if is_cell_tok t then cells := t :: !cells
+    else failwith ("bad os token " ^ t)) toks;
+  let nm k n = match Hashtbl.find_opt names (k, n) with Some r -> r | None -> CbErr Step.NODATA in
+  let mem = mem_of_cells (Stdlib.List.rev_map parse_cell !cells) in
+  { img = { i_os = !os; i_version = !ver; i_phys_base = !pb; i_rootpgt = !root; i_virt_bits = !vb;
+            i_xen_xlat = !xx;
+            sym_init_top_pgt = nm 'S' "init_top_pgt"; sym_init_level4_pgt = nm 'S' "init_level4_pgt";
+            sym_stext = nm 'S' "_stext"; sym_text = nm 'S' "_text";
+            sym_page_offset_base = nm 'S' "page_offset_base";
+            reg_cr3 = nm 'R' "cr3"; reg_cr4 = nm 'R' "cr4";
+            num_sme_mask = nm 'N' "sme_mask"; num_pgtable_l5_enabled = nm 'N' "pgtable_l5_enabled";
+            caps_kphys = !caps land 1 <> 0; caps_machphys = !caps land 2 <> 0; caps_kv = !caps land 4 <> 0;
+            raw = mem };
+    queries = Stdlib.List.rev !qs; root_phys = !rp; nfields_hint = 0 }
+
+let string_of_ostatus = function
+  | O_ST st -> Eng_walk.string_of_status st
+  | O_L l -> string_of_lstatus l
+  | O_UNMODELLED -> "unmodelled"
+
+let run_os (toks : string list) : string =
+  let c = parse_os toks in
+  let (st, s) = sys_x86_64 c.img hl_fuel in
+  let b = Buffer.create 512 in
+  Buffer.add_string b (string_of_ostatus st);
+  Buffer.add_string b (dump_sys s);
+  let show (st, r) = Eng_walk.string_of_status st ^ (if st = Step.OK then ":" ^ hex_of_n r else "") in
+  Stdlib.List.iter (fun q ->
+    let a = n_of_hex (String.sub q 2 (String.length q - 2)) in
+    if q.[0] = 'Q' then
+      Buffer.add_string b (Printf.sprintf " q%s=%s/%s" (hex_of_n a)
+        (show (xlat_via c.img s MAP_KV_PHYS Step.KPHYSADDR a)) (show (xlat_via c.img s MAP_HW Step.KPHYSADDR a)))
+    else begin
+      let (st1, v) = xlat_via c.img s MAP_KPHYS_DIRECT Step.KVADDR a in
+      Buffer.add_string b (Printf.sprintf " p%s=%s" (hex_of_n a) (show (st1, v)));
+      if st1 = Step.OK then
+        Buffer.add_string b ("/" ^ show (xlat_via c.img s MAP_KV_PHYS Step.KPHYSADDR v))
+    end) c.queries;
+  Buffer.contents b
+
 let run_case (line : string) : string =
   match words line with
   | "lay" :: calls -> run_lay calls
+  | "os" :: toks -> run_os toks
   | "scan" :: fn :: fmt :: fs :: ras :: root :: mask :: tgt :: _bo :: addr :: limit :: off :: cells ->
       run_scan fn fmt fs ras root mask tgt addr limit off cells
   | _ -> failwith "bad case"
@@ -256,6 +341,72 @@ let spec_scan fn fmt fs ras root mask tgt addr limit off cells (out : string lis
       else "ok"
   | [] -> "no output"
 
+(* the property on the implementation's own answers: every address the image's tables map
+   (C02's architectural walk from the physical root the generator used) translates to that
+   physical address through MAP_HW and through MAP_KV_PHYS; reverse direct map round trip *)
+let spec_os (toks : string list) (out : string list) : string =
+  let hint k = Stdlib.List.find_map (fun t ->
+    let n = String.length k in
+    if String.length t > n && String.sub t 0 n = k then Some (String.sub t n (String.length t - n)) else None) toks in
+  match hint "rp=", hint "nf=", hint "dm=" with
+  | Some rp, Some nf, Some dm ->
+    let c = parse_os (Stdlib.List.filter (fun t -> not (String.length t > 3 &&
+                (String.sub t 0 3 = "nf=" || String.sub t 0 3 = "dm="))) toks) in
+    let dm = n_of_hex dm in
+    let phys (x : coq_N) : Step.rdres =
+      match c.img.raw Step.MACHPHYSADDR x with
+      | Step.RdOk v -> Step.RdOk v
+      | _ -> (match c.img.raw Step.KPHYSADDR x with
+              | Step.RdOk v -> Step.RdOk v
+              | _ -> c.img.raw Step.KVADDR (BinNat.N.add dm x)) in
+    let mem a x = match a with Step.MACHPHYSADDR | Step.KPHYSADDR -> phys x | _ -> Step.RdErr Step.NODATA in
+    let mask = match c.img.num_sme_mask with CbOk v -> v | _ -> N0 in
+    let pf = { Step.pte_format = Step.PTE_X86_64;
+               Step.fieldsz = Stdlib.List.map n_of_hex (if nf = "6" then ["c";"9";"9";"9";"9";"9"] else ["c";"9";"9";"9";"9"]) } in
+    let m = { Step.m_kind = Step.KPgt (Step.MACHPHYSADDR, n_of_hex rp, mask, pf); Step.m_target = Step.MACHPHYSADDR } in
+    let arch a = match ArchSpec.spec_meth mem m a with Some o -> o | None -> (Step.NOTIMPL, None) in
+    let bad = ref "" in
+    let untranslatable = ref 0 in
+    Stdlib.List.iter (fun t ->
+      if !bad = "" && String.length t > 1 && (t.[0] = 'q' || t.[0] = 'p') then
+        match String.index_opt t '=' with
+        | None -> ()
+        | Some i ->
+          let a = String.sub t 1 (i - 1) and v = String.sub t (i + 1) (String.length t - i - 1) in
+          let parts = split_on '/' v in
+          if t.[0] = 'q' then begin
+            match parts with
+            | [kv; hw] ->
+              (match arch (n_of_hex a) with
+               | (Step.OK, Some (_, p)) ->
+                   let want = "0:" ^ hex_of_n p in
+                   if hw = want then begin
+                     if kv <> want then
+                       bad := Printf.sprintf "address %s: the page tables give %s, MAP_KV_PHYS gives %s" a want kv
+                   end else if String.length hw > 1 && hw.[0] = '0' then
+                     bad := Printf.sprintf "address %s: the page tables give %s, MAP_HW gives %s" a want hw
+                   else begin
+                     incr untranslatable;
+                     if String.length kv > 1 && kv.[0] = '0' && kv <> want then
+                       bad := Printf.sprintf "address %s: the page tables give %s, MAP_KV_PHYS gives %s" a want kv
+                   end
+               | (Step.NOTPRESENT, _) ->
+                   if String.length hw > 1 && hw.[0] = '0' && hw.[1] = ':' then
+                     bad := Printf.sprintf "address %s is not mapped by the page tables, MAP_HW gives %s" a hw
+               | _ -> ())
+            | _ -> bad := "malformed answer " ^ t
+          end else begin
+            match parts with
+            | [_] -> ()
+            | [_; back] ->
+                if back <> "0:" ^ a then
+                  bad := Printf.sprintf "physical address %s goes to %s through the reverse direct map and comes back as %s"
+                           a (Stdlib.List.hd parts) back
+            | _ -> bad := "malformed answer " ^ t
+          end) out;
+    if !bad = "" then "ok" else !bad
+  | _ -> "nospec"
+
 let split_arrow (line : string) : string list list =
   (* split the words of the line at "=>" *)
   let rec go acc cur = function
@@ -270,6 +421,7 @@ let spec_case (line : string) : string =
       let probes = match rest with p :: _ -> p | [] -> [] in
       (match case with
        | "lay" :: calls -> spec_lay calls out
+       | "os" :: toks -> spec_os toks out
        | "scan" :: fn :: fmt :: fs :: ras :: root :: mask :: tgt :: _bo :: addr :: limit :: off :: cells ->
            spec_scan fn fmt fs ras root mask tgt addr limit off cells out probes
        | _ -> "nospec")
